@@ -106,6 +106,22 @@ fn peek_i<T>(r: Result<simple_dns::Result<T>, String>, f: impl Fn(T) -> i64) -> 
     }
 }
 
+/// a writer whose write() takes at most k bytes per call
+struct OneAtATime {
+    buf: Vec<u8>,
+    k: usize,
+}
+impl std::io::Write for OneAtATime {
+    fn write(&mut self, b: &[u8]) -> std::io::Result<usize> {
+        let n = b.len().min(self.k);
+        self.buf.extend_from_slice(&b[..n]);
+        Ok(n)
+    }
+    fn flush(&mut self) -> std::io::Result<()> {
+        Ok(())
+    }
+}
+
 pub fn emit_words(out: &mut Out, st: &mut Stats, variants: &[(u16, [u16; 4])]) {
     for (id, counts) in variants {
         for w0 in (0u32..65536).step_by(256) {
@@ -188,13 +204,22 @@ pub fn run(a: &Args) {
                         p.set_flags(flags_from_mask(mask));
                         *p.opcode_mut() = opcode_from(op);
                         *p.rcode_mut() = rcode_from(rc);
-                        p.build_bytes_vec().map(|b| u16::from_be_bytes([b[2], b[3]]) as i64)
+                        // the same header through the writer-based entry points into a writer that takes one byte /
+                        // five bytes per write() call: the twelve header bytes must all arrive, in place
+                        let mut words = vec![];
+                        for k in [1usize, 5] {
+                            let mut w = OneAtATime { buf: vec![], k };
+                            let ok = p.write_to(&mut w).is_ok();
+                            // (a wrong id or a short header shows as -3)
+                            words.push(if ok && w.buf.len() == 12 && w.buf[0] == 0 && w.buf[1] == 7 { i64::from(u16::from_be_bytes([w.buf[2], w.buf[3]])) } else { -3 });
+                        }
+                        p.build_bytes_vec().map(|b| (u16::from_be_bytes([b[2], b[3]]) as i64, words))
                     });
-                    let w = match res {
-                        Ok(Ok(w)) => w,
-                        _ => -2,
+                    let (w, words) = match res {
+                        Ok(Ok(x)) => x,
+                        _ => (-2, vec![-2, -2]),
                     };
-                    c.push(json!([ctor, mask, op, rc, w]));
+                    c.push(json!([ctor, mask, op, rc, w, words[0], words[1]]));
                     st.case(("b", ctor, mask, op, rc), w >= 0);
                 }
             }
